@@ -32,6 +32,7 @@ const concBase = 1000000
 const (
 	onceBase  = 2000000
 	freshBase = 3000000
+	manyBase  = 4000000 // a resource first seen when the node table already holds more than DefaultMaxResourceAmount names
 )
 
 func main() {
@@ -93,6 +94,9 @@ func main() {
 				}
 				rep.Count("entry_batch_"+strconv.FormatUint(uint64(o.Batch), 10), 1)
 				rep.Count("entry_rtype_"+strconv.Itoa(int(o.RType)), 1)
+				if c.Long {
+					rep.Count("entry_in_long_hold_case", 1)
+				}
 				if o.Dflt {
 					rep.Count("entry_default_options_omitted", 1)
 				}
@@ -159,12 +163,18 @@ func main() {
 		in, fails, st := runOnceRace(id, root.Fork(uint64(id)), clk)
 		report(id, in, fails, st)
 	}
+	runManyOne := func(id int) {
+		in, fails, st := runManyResources(id, clk)
+		report(id, in, fails, st)
+	}
 	runFreshOne := func(id, rounds int) {
 		in, fails, st := runFreshNodeRace(id, rounds, clk)
 		report(id, in, fails, st)
 	}
 	if a.Only >= 0 {
-		if a.Only >= freshBase {
+		if a.Only >= manyBase {
+			runManyOne(a.Only)
+		} else if a.Only >= freshBase {
 			runFreshOne(a.Only, 3*nFresh)
 		} else if a.Only >= onceBase {
 			runOnceOne(a.Only)
@@ -188,6 +198,7 @@ func main() {
 		runOnceOne(onceBase + i)
 	}
 	runFreshOne(freshBase, nFresh)
+	runManyOne(manyBase)
 	rep.DistinctNontrivial = dist.N()
 	rep.Consts["stat.StatSlotOrder"] = stat.StatSlotOrder
 	rep.Consts["stat.PrepareSlotOrder"] = stat.PrepareSlotOrder
